@@ -6,7 +6,7 @@ import TongoModel.CellFmt
 namespace Driver
 open Tongo Tongo.Boc Tongo.CellFmt
 
-def outcomeTag {α} : Outcome α → String
+private def outcomeTag {α} : Outcome α → String
   | .ok _ => "ok" | .err _ => "err" | .panic _ => "panic"
 
 /-- `ok <canonical table> <roots> <hash of every root>` -/
